@@ -9,7 +9,7 @@ use std::sync::Arc;
 use wv_gen::log::Rec;
 
 pub fn run(input: &[u8], rec: &mut Rec) {
-    for mask in 0u32..128 {
+    for mask in (0u32..128).chain([1 | 512, 27 | 512, 91 | 512, 19 | 512]) {
         let calls = Arc::new(AtomicU64::new(0));
         let c2 = calls.clone();
         let mut cfg = cfg_from_mask(mask);
